@@ -246,6 +246,8 @@ func (i *Int) Neg(a kyber.Scalar) kyber.Scalar {
 	i.V.Set(newNat)
 	i.M = ai.M
 	i.V = *compatible.NewInt(0).Sub(&i.V, &ai.V, i.M)
+	// M - 0 leaves the unreduced value M: reduce so that -0 is 0
+	i.V = *compatible.NewInt(0).Mod(&i.V, i.M)
 
 	return i
 }
